@@ -175,6 +175,49 @@ func (m *Message) verifySignalName(name string) error {
 	return nil
 }
 
+// verifyNestedSignalNames checks that the names of the signals nested in the given signal
+// (at any depth, if it is a multiplexer) are not used within the message and
+// do not collide with each other or with the name of the signal itself.
+func (m *Message) verifyNestedSignalNames(sig Signal) error {
+	if sig.Kind() != SignalKindMultiplexer {
+		return nil
+	}
+
+	names := map[string]struct{}{sig.Name(): {}}
+
+	muxSigStack := newStack[Signal]()
+	muxSigStack.push(sig)
+
+	for muxSigStack.size() > 0 {
+		muxSig, err := muxSigStack.pop().ToMultiplexer()
+		if err != nil {
+			panic(err)
+		}
+
+		for _, tmpSig := range muxSig.signals.entries() {
+			tmpName := tmpSig.Name()
+
+			if err := m.verifySignalName(tmpName); err != nil {
+				return err
+			}
+
+			if _, ok := names[tmpName]; ok {
+				return &NameError{
+					Name: tmpName,
+					Err:  ErrIsDuplicated,
+				}
+			}
+			names[tmpName] = struct{}{}
+
+			if tmpSig.Kind() == SignalKindMultiplexer {
+				muxSigStack.push(tmpSig)
+			}
+		}
+	}
+
+	return nil
+}
+
 func (m *Message) verifySignalSizeAmount(sigID EntityID, amount int) error {
 	if amount == 0 {
 		return nil
@@ -435,6 +478,14 @@ func (m *Message) AppendSignal(signal Signal) error {
 		})
 	}
 
+	if err := m.verifyNestedSignalNames(signal); err != nil {
+		return m.errorf(&AppendSignalError{
+			EntityID: signal.EntityID(),
+			Name:     signal.Name(),
+			Err:      err,
+		})
+	}
+
 	if err := m.signalLayout.append(signal); err != nil {
 		return m.errorf(err)
 	}
@@ -468,6 +519,15 @@ func (m *Message) InsertSignal(signal Signal, startBit int) error {
 		})
 	}
 
+	if err := m.verifyNestedSignalNames(signal); err != nil {
+		return m.errorf(&InsertSignalError{
+			EntityID: signal.EntityID(),
+			Name:     signal.Name(),
+			StartBit: startBit,
+			Err:      err,
+		})
+	}
+
 	if err := m.signalLayout.verifyAndInsert(signal, startBit); err != nil {
 		return m.errorf(err)
 	}
@@ -489,6 +549,12 @@ func (m *Message) RemoveSignal(signalEntityID EntityID) error {
 			EntityID: signalEntityID,
 			Err:      err,
 		})
+	}
+
+	// a signal nested in a multiplexer is removed through its multiplexer,
+	// which also unregisters it from the message
+	if parentMuxSig := sig.ParentMultiplexerSignal(); parentMuxSig != nil {
+		return parentMuxSig.RemoveSignal(signalEntityID)
 	}
 
 	m.removeSignal(sig)
